@@ -321,6 +321,44 @@ theorem T_C11_chain_disjoint (Q : List (List Nat)) (l l' v : Nat) (h : l + 1 < l
 example : sketchNamed "FourCoreDisk" (fun e => allPointsUsed e.quads && decide (nPoints e.quads = 17)) = true := by
   decide +kernel
 
+/-- `ElementBase.transform` with a `Scaling` without origin: two faces that share a point keep sharing it
+    exactly when they are scaled about the same origin (or not scaled at all) — the origin must be the
+    centre remembered before the loop over the parts, not one recomputed while the parts move -/
+theorem T_C11_scaling_common_origin (r : Rat) (o1 o2 x : V3) :
+    scaleAbout r o1 x = scaleAbout r o2 x ↔ (r = 1 ∨ o1 = o2) := by
+  constructor
+  · intro h
+    by_cases hr : r = 1
+    · exact Or.inl hr
+    · right
+      have hne : (1 - r) ≠ 0 := fun h0 => hr (by linarith)
+      simp only [scaleAbout, V3.mk.injEq] at h
+      obtain ⟨hx, hy, hz⟩ := h
+      apply V3.ext'
+      · have : (1 - r) * (o1.x - o2.x) = 0 := by linarith
+        rcases mul_eq_zero.mp this with h0 | h0
+        · exact absurd h0 hne
+        · linarith
+      · have : (1 - r) * (o1.y - o2.y) = 0 := by linarith
+        rcases mul_eq_zero.mp this with h0 | h0
+        · exact absurd h0 hne
+        · linarith
+      · have : (1 - r) * (o1.z - o2.z) = 0 := by linarith
+        rcases mul_eq_zero.mp this with h0 | h0
+        · exact absurd h0 hne
+        · linarith
+  · rintro (rfl | rfl)
+    · simp [scaleAbout]
+    · rfl
+
+/-- non-vacuity: scaling a shared point by 4/5 about two different centres tears it apart -/
+example : scaleAbout (4 / 5) ⟨0, 0, 0⟩ ⟨1, 0, 0⟩ ≠ scaleAbout (4 / 5) ⟨1 / 2, 0, 0⟩ ⟨1, 0, 0⟩ := by
+  intro h
+  rcases (T_C11_scaling_common_origin _ _ _ _).mp h with h1 | h1
+  · norm_num at h1
+  · simp only [V3.mk.injEq] at h1
+    norm_num at h1
+
 /-! ## Part D — the handedness validator under placements -/
 
 /-- the corner triple product is multiplied by the determinant of the linear part, the translation drops out -/
